@@ -201,6 +201,7 @@ def cfgOfJson (j : Json) : Cfg :=
   let b (k : String) (d : Bool) := (j.getObjValAs? Bool k).toOption.getD d
   { suggestCatchesAll := b "suggestCatchesAll" true, shortDeliveryOk := b "shortDeliveryOk" true,
     deleteCascadesOps := b "deleteCascadesOps" true, metadataAtomic := b "metadataAtomic" true,
-    esRecycle := b "esRecycle" true, esFailureFinishesOp := b "esFailureFinishesOp" true }
+    esRecycle := b "esRecycle" true, esFailureFinishesOp := b "esFailureFinishesOp" true,
+    createKeepsInfeasible := b "createKeepsInfeasible" true }
 
 end VizierModel.Driver.SvcJson
